@@ -121,15 +121,27 @@ def _selection(ctx, rule_w, rule_sel, f, ex, label):
         return
     # group the log_p_one events by the guards of the multinomial they feed (branches give one draw each)
     for m in mn:
-        cands = [e for e in lp if all(g in m.guards for g in e.guards)]
+        from ..termflow import TRUE, g_and, g_not, make_cond
+
+        # a candidate evaluated under a test the draw is not under (`nodes + [outliers] if enabled else nodes` in one
+        # comprehension) is an entry that is present under that test; one evaluated under the opposite of a test
+        # the draw is under belongs to the other branch
+        cands = []
+        for e in lp:
+            extra = [g for g in e.guards if g not in m.guards]
+            if any(g_not(g) in m.guards for g in extra):
+                continue
+            cands.append((e, extra))
         # keep the last evaluation per candidate position (branches re-evaluate the shared prefix)
-        seen, uniq = set(), []
-        for e in cands:
+        seen, uniq, items = set(), [], []
+        for e, extra in cands:
             k = vkey(e.args[0])
             if k not in seen:
                 seen.add(k)
                 uniq.append(e)
-        W = AList([Poly.atom(("mcall", "log_p_one", vkey(e.recv), (vkey(e.args[0]),), ())) for e in uniq])
+                atom = Poly.atom(("mcall", "log_p_one", vkey(e.recv), (vkey(e.args[0]),), ()))
+                items.append(atom if not extra else make_cond([(g_and(extra), atom), (TRUE, Poly.atom(("absent",)))]))
+        W = AList(items)
         want = spec(prog, "def s(self, W):\n    p = np.exp(W - log_sum_exp(W))\n    return p / sum(p)\n", f, args=[None, W]).result
         ok_recv = all(show(e.recv) == "P0.tree_dist" for e in uniq)
         ctx.check(ok_recv, rule_w, label + ": every weight is evaluated with the sampler's own tree_dist", f.where(), "a candidate is weighted by a different density object", construct=f.qualname, stmt="tree_dist.log_p_one")
@@ -175,14 +187,36 @@ def rule_G(ctx):
 
 
 def _dedupe(evs):
-    from ..termflow import vkey
+    """One event per (receiver, candidate): branches re-evaluate the shared prefix of the candidate list.  The merged
+    event happens whenever one of them does (g under one branch, not g under the other: always)."""
+    from ..termflow import Event, TRUE, g_and, g_not, g_or, vkey
 
-    seen, out = set(), []
+    seen, out = {}, []
     for e in evs:
         k = (vkey(e.recv), vkey(e.args[0]))
         if k not in seen:
-            seen.add(k)
-            out.append(e)
+            n = Event(e.name, list(e.args), dict(e.kwargs), list(e.guards), e.node, recv=e.recv)
+            n.guards = list(e.guards)
+            n.full_guards = list(getattr(e, "full_guards", e.guards))
+            seen[k] = n
+            out.append(n)
+        else:
+            n = seen[k]
+            a, b = g_and(n.full_guards), g_and(getattr(e, "full_guards", e.guards))
+            if a == TRUE or b == TRUE or a == g_not(b) or b == g_not(a):
+                merged = []
+            else:
+                merged = [g_or([a, b])]
+            # guards common to both stay; what differs is replaced by the disjunction
+            common = [g for g in n.full_guards if g in getattr(e, "full_guards", e.guards)]
+            rest_a = g_and([g for g in n.full_guards if g not in common])
+            rest_b = g_and([g for g in getattr(e, "full_guards", e.guards) if g not in common])
+            if rest_a == TRUE or rest_b == TRUE or rest_a == g_not(rest_b) or rest_b == g_not(rest_a):
+                merged = list(common)
+            else:
+                merged = list(common) + [g_or([rest_a, rest_b])]
+            n.guards = merged
+            n.full_guards = merged
     return out
 
 
